@@ -167,6 +167,15 @@ impl GrammarBuilder {
         for mut terminal in grammar_terminals {
             let term_idx = self.get_term_idx();
             self.check_identifier(&terminal.name)?;
+            if self.terminals.contains_key(terminal.name.as_ref()) {
+                // BTreeMap::insert would silently replace the previous terminal
+                // leaving a hole in terminal indexes.
+                err!(
+                    format!("Terminal '{}' is already defined.", &terminal.name),
+                    Some(self.file.clone()),
+                    terminal.name.span
+                )?
+            }
             self.terminals.insert(
                 terminal.name.as_ref().to_string(),
                 Terminal {
@@ -248,6 +257,14 @@ impl GrammarBuilder {
 
         for rule in rules {
             self.check_identifier(&rule.name)?;
+            if self.terminals.contains_key(rule.name.as_ref()) {
+                // All references would be resolved to the terminal.
+                err!(
+                    format!("Rule '{}' is already defined as a terminal.", &rule.name),
+                    Some(self.file.clone()),
+                    rule.name.span
+                )?
+            }
             // Create new nonterm index if needed
             let nt_idx;
             if let Some(nonterminal) = self.nonterminals.get(rule.name.as_ref()) {
